@@ -47,8 +47,6 @@ func runC11(p *core.Program, r *core.Report) {
 	c := rc{p, r}
 	hygiene(c, "slice.go")
 	containsFn := p.Func("gogu.Contains")
-	uniqueFn := p.Func("gogu.Unique")
-	baseFlatten := p.Func("gogu.baseFlatten")
 
 	type spec struct {
 		name      string
@@ -527,6 +525,86 @@ func runC11(p *core.Program, r *core.Report) {
 		c.ob("PV1", name, "occurrences counted per element", c.fpos(fn), nKeyed >= 1, "the counting map is not keyed by the element just read")
 	}
 
+	checkFlatten(c)
+	_ = types.Typ
+}
+
+// canReachBlockWithoutBlock: some path from the start of `from` reaches `to`
+// without entering block `stop`.
+func canReachBlockWithoutBlock(from, to, stop *ssa.BasicBlock) bool {
+	seen := map[*ssa.BasicBlock]bool{}
+	var rec func(b *ssa.BasicBlock) bool
+	rec = func(b *ssa.BasicBlock) bool {
+		if b == to {
+			return true
+		}
+		if b == stop || seen[b] {
+			return false
+		}
+		seen[b] = true
+		for _, s := range b.Succs {
+			if rec(s) {
+				return true
+			}
+		}
+		return false
+	}
+	return rec(from)
+}
+
+// guardedByHeader: the block of the phi ends in an If whose condition satisfies pred
+// with the loop continuing on the true edge.
+func guardedByHeader(ph *ssa.Phi, pred func(cd path.Cond) bool) bool {
+	iff := path.BlockIf(ph.Block())
+	if iff == nil {
+		return false
+	}
+	cd, ok := path.CondOf(iff)
+	return ok && !cd.Neg && pred(cd)
+}
+
+// closureComparesImages: the closure's only element comparison is between two
+// calls of the same function value (images), not between raw elements.
+func closureComparesImages(cl *ssa.Function) bool {
+	n := 0
+	ok := true
+	for _, in := range path.Instrs(cl) {
+		bo, isB := in.(*ssa.BinOp)
+		if !isB || (bo.Op != token.EQL && bo.Op != token.NEQ) {
+			continue
+		}
+		if _, isTP := bo.X.Type().(*types.TypeParam); !isTP {
+			continue
+		}
+		n++
+		cx, okx := bo.X.(*ssa.Call)
+		cy, oky := bo.Y.(*ssa.Call)
+		if !okx || !oky {
+			ok = false
+			continue
+		}
+		if cx.Call.StaticCallee() != nil || cy.Call.StaticCallee() != nil {
+			ok = false
+		}
+	}
+	return ok && n == 1
+}
+
+// isLenOfUnspilled: v = len(x) where x (through a spilled cell) is value s.
+func isLenOfUnspilled(v ssa.Value, s ssa.Value) bool {
+	call, ok := v.(*ssa.Call)
+	if !ok {
+		return false
+	}
+	b, ok := call.Call.Value.(*ssa.Builtin)
+	return ok && b.Name() == "len" && path.Unspill(call.Call.Args[0]) == s
+}
+
+// checkFlatten: the rules about Union, Flatten and baseFlatten (shared by C11 and C12).
+func checkFlatten(c rc) {
+	p := c.p
+	uniqueFn := p.Func("gogu.Unique")
+	baseFlatten := p.Func("gogu.baseFlatten")
 	// ---------------- Union / Flatten / baseFlatten
 	if baseFlatten != nil {
 		for _, name := range []string{"gogu.Union", "gogu.Flatten"} {
@@ -678,76 +756,4 @@ func runC11(p *core.Program, r *core.Report) {
 		}
 		c.ob("PT5", "gogu.baseFlatten", "accumulator threaded through the recursion", c.fpos(fn), okThread, "the recursion must continue with the accumulator built so far (leaves left to right)")
 	}
-	_ = types.Typ
-}
-
-// canReachBlockWithoutBlock: some path from the start of `from` reaches `to`
-// without entering block `stop`.
-func canReachBlockWithoutBlock(from, to, stop *ssa.BasicBlock) bool {
-	seen := map[*ssa.BasicBlock]bool{}
-	var rec func(b *ssa.BasicBlock) bool
-	rec = func(b *ssa.BasicBlock) bool {
-		if b == to {
-			return true
-		}
-		if b == stop || seen[b] {
-			return false
-		}
-		seen[b] = true
-		for _, s := range b.Succs {
-			if rec(s) {
-				return true
-			}
-		}
-		return false
-	}
-	return rec(from)
-}
-
-// guardedByHeader: the block of the phi ends in an If whose condition satisfies pred
-// with the loop continuing on the true edge.
-func guardedByHeader(ph *ssa.Phi, pred func(cd path.Cond) bool) bool {
-	iff := path.BlockIf(ph.Block())
-	if iff == nil {
-		return false
-	}
-	cd, ok := path.CondOf(iff)
-	return ok && !cd.Neg && pred(cd)
-}
-
-// closureComparesImages: the closure's only element comparison is between two
-// calls of the same function value (images), not between raw elements.
-func closureComparesImages(cl *ssa.Function) bool {
-	n := 0
-	ok := true
-	for _, in := range path.Instrs(cl) {
-		bo, isB := in.(*ssa.BinOp)
-		if !isB || (bo.Op != token.EQL && bo.Op != token.NEQ) {
-			continue
-		}
-		if _, isTP := bo.X.Type().(*types.TypeParam); !isTP {
-			continue
-		}
-		n++
-		cx, okx := bo.X.(*ssa.Call)
-		cy, oky := bo.Y.(*ssa.Call)
-		if !okx || !oky {
-			ok = false
-			continue
-		}
-		if cx.Call.StaticCallee() != nil || cy.Call.StaticCallee() != nil {
-			ok = false
-		}
-	}
-	return ok && n == 1
-}
-
-// isLenOfUnspilled: v = len(x) where x (through a spilled cell) is value s.
-func isLenOfUnspilled(v ssa.Value, s ssa.Value) bool {
-	call, ok := v.(*ssa.Call)
-	if !ok {
-		return false
-	}
-	b, ok := call.Call.Value.(*ssa.Builtin)
-	return ok && b.Name() == "len" && path.Unspill(call.Call.Args[0]) == s
 }
